@@ -140,3 +140,8 @@ Theorem C06_unmapped_file_index_refuted :
 Proof. exact unmapped_file_index_refuted_lemma. Qed.
 Print Assumptions C06_unmapped_file_index_refuted.
 
+Theorem C06_orig_column_units_refuted :
+  exists tok, In tok (token_starts astral_line) /\ t_line tok = 0%N /\ t_colc tok = 11%N /\ t_col16 tok = 12%N.
+Proof. exact orig_column_units_refuted_lemma. Qed.
+Print Assumptions C06_orig_column_units_refuted.
+
